@@ -346,9 +346,12 @@ IMPORT_FILES = ["xlsx/src/import/worksheets.rs", "xlsx/src/import/styles.rs", "x
 open_("F-C25-import-index-panics", "C25",
       "the xlsx importer indexes vectors and maps with values taken from the file (first child of a required element, relationship ids, localSheetId, style indices): a package without <fonts>/<borders>/<sheets>, with a dangling relationship id or an out-of-range localSheetId panics instead of returning an error",
       {"base": "xlsx/tests/example.xlsx", "part": "styles.xml", "drop_element": "fonts"},
-      patterns=[{"check": "panic", "keys": IMPORT_FILES,
-                 "cats": ["index out of bounds: the len is # but the index is #", "no entry found for key",
-                          "called `Option::unwrap()` on a `None` value"]}])
+      sigs=["panic|xlsx/src/import/worksheets.rs|no entry found for key",
+            "panic|xlsx/src/import/worksheets.rs|index out of bounds: the len is # but the index is #",
+            "panic|xlsx/src/import/worksheets.rs|called `Option::unwrap()` on a `None` value",
+            "panic|xlsx/src/import/styles.rs|index out of bounds: the len is # but the index is #",
+            "panic|xlsx/src/import/mod.rs|index out of bounds: the len is # but the index is #",
+            "panic|xlsx/src/import/workbook.rs|index out of bounds: the len is # but the index is #"])
 
 # ---------------------------------------------------------------- C24
 CLEAN_C24 = "names_in_formulas,borders,cf,row_hidden,row_sizes,row_style,sheet_colors,structural,cse_arrays,dyn_arrays,paste,autofill,links"
